@@ -493,8 +493,11 @@ class MethodObj:
         if entry is None:
             raise AttributeError(name)
         if w.config == "asyncio" and entry[0]["mode"] in ("deferred", "nested") and sum(map(ord, str(p))) % 3 == 0:
+            # its body (and with it the `call` event) only starts when the loop schedules it — possibly never, if the
+            # overall result fails first: no comparison with the callback model's trace for this run
+            w.nomodel = True
+
             async def amethod(ctx, info, **kw):          # an `async def` method of the root / parent value
-                w.nomodel = True     # its body (and with it the `call` event) only starts when the loop schedules it
                 r = w.resolve(info, False)
                 return await r
             return amethod
